@@ -161,3 +161,62 @@ def relation_of(a, b):
     if sa & sb:
         return "overlapping"
     return "disjoint"
+
+
+# ----------------------------------------------------------------------------------------------
+# collections of arrays / datasets over a common pool of dimensions
+# ----------------------------------------------------------------------------------------------
+
+@st.composite
+def dim_pool(draw, names=None, kinds="ifs", min_size=1, max_size=4):
+    names = names or NAMES
+    pool = {}
+    for d in names:
+        kind = draw(st.sampled_from(list(kinds)))
+        pool[d] = {"kind": kind, "labels": draw(labels(draw(st.integers(min_size, max_size)), kind=kind))}
+    return pool
+
+
+@st.composite
+def member_labels(draw, pool, d, allow_empty=False, relations=None, mix_int_float=True):
+    kind = pool[d]["kind"]
+    rel, labs = draw(related_labels(pool[d]["labels"], kind, relation=draw(st.sampled_from(relations)) if relations else None,
+                                    allow_empty=allow_empty))
+    if mix_int_float and kind == "i" and draw(st.integers(0, 5)) == 0:
+        labs = [float(x) for x in labs]
+    return labs
+
+
+@st.composite
+def array_over_pool(draw, pool, min_dims=0, max_dims=3, vks="fi", allow_empty=False, relations=None, nan=False, dims=None):
+    names = list(pool)
+    if dims is None:
+        nd = draw(st.integers(min_dims, max_dims))
+        dims = list(draw(st.permutations(names)))[:nd]
+    labs = [draw(member_labels(pool, d, allow_empty=allow_empty, relations=relations)) for d in dims]
+    spec = {"dims": list(dims), "labels": labs, "vk": draw(st.sampled_from(list(vks))), "base": draw(st.integers(0, 40))}
+    if nan and spec["vk"] == "f":
+        n = 1
+        for l in labs:
+            n *= len(l)
+        if n and draw(st.booleans()):
+            spec["nan"] = draw(st.lists(st.integers(0, n - 1), min_size=1, max_size=max(1, n // 2), unique=True))
+    return spec
+
+
+@st.composite
+def dataset_over_pool(draw, pool, min_vars=1, max_vars=3, max_dims=3, allow_empty=False, relations=None, vks="fi", var_names=None):
+    """{"vars": [[name, spec], ...], "attrs": {...}}: variables share one label vector per dimension"""
+    names = list(pool)
+    nd = draw(st.integers(1, max_dims))
+    dsdims = list(draw(st.permutations(names)))[:nd]
+    dlabels = {d: draw(member_labels(pool, d, allow_empty=allow_empty, relations=relations, mix_int_float=False)) for d in dsdims}
+    nv = draw(st.integers(min_vars, max_vars))
+    out = []
+    vnames = var_names or ["va", "vb", "vc", "vd"]
+    for i in range(nv):
+        k = draw(st.integers(0, len(dsdims)))
+        vd = list(draw(st.permutations(dsdims)))[:k]
+        out.append([vnames[i], {"dims": vd, "labels": [dlabels[d] for d in vd], "vk": draw(st.sampled_from(list(vks))),
+                                "base": draw(st.integers(0, 40))}])
+    return {"vars": out}
